@@ -89,6 +89,9 @@ class Ev:
             if base[0] == "clsref":
                 if e.attr in self.slots:
                     return ("slot", e.attr)
+                tbl = self._class_table(e.attr, env, fn, conds)
+                if tbl is not None:
+                    return tbl
                 return ("clsattr", e.attr)
             if base[0] == "namedclass":
                 return ("namedattr", base[1], e.attr)
@@ -145,8 +148,68 @@ class Ev:
             return ("opaque", norm(e))
         raise Unsupported(f"expression {short(e)}")
 
+    def _class_table(self, attr: str, env, fn, conds):
+        """A class attribute bound to a dict / tuple display of constants: ("dict", [(k, v)...]) / ("tuple", [...])."""
+        for k in self.cls.mro:
+            v = k.class_attrs.get(attr)
+            if v is None:
+                continue
+            try:
+                if isinstance(v, ast.Dict) and all(x is not None for x in v.keys):
+                    return ("dict", [(self.ev(a, {}, fn, conds), self.ev(b, {}, fn, conds)) for a, b in zip(v.keys, v.values)])
+                if isinstance(v, (ast.Tuple, ast.List)):
+                    return ("tuple", [self.ev(a, {}, fn, conds) for a in v.elts])
+            except Unsupported:
+                return None
+            return None
+        return None
+
     def call(self, e: ast.Call, env, fn: FunctionInfo, conds):
         f = e.func
+        # ---- table-driven slot access
+        if isinstance(f, ast.Name) and f.id in ("getattr", "setattr") and len(e.args) >= 2:
+            tgt = self.ev(e.args[0], env, fn, conds)
+            nm = self.ev(e.args[1], env, fn, conds)
+            if tgt[0] == "clsref" and nm[0] == "const" and isinstance(nm[1], str):
+                if f.id == "getattr":
+                    return ("slot", nm[1]) if nm[1] in self.slots else ("clsattr", nm[1])
+                if len(e.args) == 3:
+                    v = self.ev(e.args[2], env, fn, conds)
+                    self.effects.append(("slotwrite", nm[1], v, list(conds), norm(e), "cls"))
+                    return ("const", None)
+            if tgt[0] == "namedclass" and nm[0] == "const" and f.id == "setattr" and len(e.args) == 3:
+                self.effects.append(("slotwrite", nm[1], self.ev(e.args[2], env, fn, conds), list(conds), norm(e), "named:" + tgt[1]))
+                return ("const", None)
+            raise Unsupported(f"{f.id} on {short(e.args[0])} with a name that is not a constant of a class-level table")
+        if isinstance(f, ast.Name) and f.id == "zip" and e.args:
+            seqs = [self.ev(a, env, fn, conds) for a in e.args]
+            if all(sq[0] in ("tuple", "list") for sq in seqs):
+                n_ = min(len(sq[1]) for sq in seqs)
+                return ("list", [("tuple", [sq[1][i] for sq in seqs]) for i in range(n_)])
+            if any(sq[0] in ("pop", "inst", "component") for sq in seqs) and any(sq[0] in ("tuple", "list") for sq in seqs):
+                # zip(<names>, <captured tuple>): pair position-wise with the components of the captured value
+                n_ = min(len(sq[1]) for sq in seqs if sq[0] in ("tuple", "list"))
+                return ("list", [("tuple", [(sq[1][i] if sq[0] in ("tuple", "list") else ("component", sq, i)) for sq in seqs])
+                                 for i in range(n_)])
+            raise Unsupported(f"zip over {short(e)}")
+        if isinstance(f, ast.Name) and f.id in ("tuple", "list") and len(e.args) == 1 and isinstance(e.args[0], (ast.GeneratorExp, ast.ListComp)):
+            g = e.args[0]
+            if len(g.generators) == 1 and not g.generators[0].ifs:
+                it = self.ev(g.generators[0].iter, env, fn, conds)
+                if it[0] in ("tuple", "list"):
+                    out_ = []
+                    for item in it[1]:
+                        env2 = dict(env)
+                        self.assign(g.generators[0].target, item, env2, fn, conds, norm(e))
+                        out_.append(self.ev(g.elt, env2, fn, conds))
+                    return ("tuple", out_)
+            raise Unsupported(f"comprehension {short(e)}")
+        if isinstance(f, ast.Attribute) and f.attr in ("items", "values", "keys") and not e.args:
+            b_ = self.ev(f.value, env, fn, conds)
+            if b_[0] == "dict":
+                if f.attr == "items":
+                    return ("list", [("tuple", [k_, v_]) for k_, v_ in b_[1]])
+                return ("list", [(k_ if f.attr == "keys" else v_) for k_, v_ in b_[1]])
         if isinstance(f, ast.Name) and f.id in ("all", "any") and len(e.args) == 1 and isinstance(e.args[0], ast.GeneratorExp):
             env2 = dict(env)
             env2["#lazy"] = f.id  # a generator consumed by all()/any() stops at the first falsy / truthy element
@@ -404,6 +467,22 @@ def slots_of(idx: ProgramIndex, cls: ClassInfo) -> set:
                                     isinstance(b, ast.Call) and isinstance(b.func, ast.Name) and b.func.id == "type"
                                 ) or (isinstance(b, ast.Name) and b.id == "cls"):
                                     out.add(tt.attr)
+    # table-driven form: setattr(cls, <slot name>, value) with the names held in a class-level dict / tuple of strings
+    uses_setattr = False
+    for k in cls.mro:
+        for fn in k.methods.values():
+            for n in walk_no_nested(fn.node):
+                if isinstance(n, ast.Call) and isinstance(n.func, ast.Name) and n.func.id == "setattr" and len(n.args) == 3:
+                    uses_setattr = True
+                    if isinstance(n.args[1], ast.Constant) and isinstance(n.args[1].value, str):
+                        out.add(n.args[1].value)
+    if uses_setattr:
+        for k in cls.mro:
+            for nm, v in k.class_attrs.items():
+                vals = v.values if isinstance(v, ast.Dict) else (v.elts if isinstance(v, (ast.Tuple, ast.List)) else [])
+                strs = [x.value for x in vals if isinstance(x, ast.Constant) and isinstance(x.value, str)]
+                if strs and len(strs) == len(vals) and all(any(s_ in kk.class_attrs for kk in cls.mro) for s_ in strs):
+                    out |= set(strs)
     return out
 
 
@@ -868,7 +947,13 @@ def run(idx: ProgramIndex, rep: Report, tier: str, selftest: bool = True):
     # Identical resolutions are analysed once per distinct (resolved methods) signature but counted per class.
     cache: Dict[Tuple, Any] = {}
     dtype_checked = 0
+    abstract_bases = []
     for name, c in sorted(leaves.items()):
+        # an abstract protocol base (shared enter / exit, hooks that raise NotImplementedError, no slot of its own) is
+        # checked through each of its concrete subclasses, as resolved on them
+        if not slots_of(idx, c) and any(c in k.mro[1:] for k in leaves.values()):
+            abstract_bases.append(name)
+            continue
         sig = tuple(
             (idx.resolve_method(c, m).qualname if idx.resolve_method(c, m) else None)
             for m in ("__init__", "__enter__", "__exit__", "_set_state", "_set_value", "value", "on")
@@ -885,6 +970,7 @@ def run(idx: ProgramIndex, rep: Report, tier: str, selftest: bool = True):
     if dtype_checked < 2:
         raise AnalysisError("per-dtype context (getter keyed by dtype) not found")
     rep.analysed["distinct_protocol_resolutions"] = len(cache)
+    rep.analysed["abstract_protocol_bases"] = abstract_bases
 
     for name, c in sorted(composites.items()):
         check_composite(idx, rep, c, leaves)
